@@ -11,6 +11,7 @@ open CimbaModel.HashHeap (HTag Item Order HH WF abs liveTags)
 def CmdOk : Cmd → Prop
   | .timerAdd _ _ sig => encSig sig ≠ 0
   | .timerSet _ _ sig => encSig sig ≠ 0
+  | .timerAddOf _ _ sig => encSig sig ≠ 0
   | .resume _ sig => sig = 0 ∨ encSig sig ≠ 0
   | .interrupt _ sig _ => sig = 0 ∨ encSig sig ≠ 0
   | _ => True
@@ -47,6 +48,11 @@ theorem GInv.execCmd_ex (hp : GInv noEx fr w) (hfr : fr p = none) (hlt : p < w.p
     refine ⟨fr, ?_⟩
     have := (hp.timersClear p).timerAdd_fst p d sig hok
     ginv
+  | timerAddOf q d sig =>
+    simp only [Sim.execCmd]
+    split
+    · exact ⟨fr, hp⟩
+    · exact ⟨fr, hp.timerAdd_fst q d sig hok⟩
   | resume q sig =>
     simp only [Sim.execCmd]
     split
